@@ -335,8 +335,9 @@ def fam_recreated(tier: str, rng: random.Random) -> Iterator[dict]:
     pool = [h for h in fam_hier_small(tier, rng)] + [h for h in fam_inv_lists(tier, rng)]
     pool += [h for h in fam_hier(tier, rng) if not any(d["d"].startswith("foreign") for c in h["cls"] for m in c["members"]
                                                        for d in m["decos"])]
-    if tier == "quick":
-        pool = rng.sample(pool, min(len(pool), 300))
+    # (the pool has ~22 000 histories at the thorough tier: 3 000 of them, each re-created with and without a further
+    #  invariant)
+    pool = rng.sample(pool, min(len(pool), 300 if tier == "quick" else 3000))
     for h in pool:
         n = len(h["cls"])
         j = rng.randint(1, n)
